@@ -196,6 +196,9 @@ def family(tier):
             add(G.single(k, "attr_factory", inherit=inh))
     for r in G.COMPOSITES:
         add(r)
+    # init=False attributes: the value lives on the class until an instance gets its own
+    for k in (["nums", "leaf", "scores", "kids"] if tier == "quick" else [k for k in kinds if "mut" in G.KINDS[k]]):
+        add(G.single(k, "attr_noinit"))
     return recs
 
 
